@@ -642,12 +642,24 @@ func makeSlice(fr *frame, instr *ssa.MakeSlice) value {
 	lenT := r.toW(fr.get(instr.Len).(*Term), instr.Len.Type(), 64)
 	capT := r.toW(fr.get(instr.Cap).(*Term), instr.Cap.Type(), 64)
 	if !lenT.IsConst() || !capT.IsConst() {
-		r.allocObligation(fr, lenT, instr)
+		big := lenT
+		if lenT.IsConst() {
+			big = capT
+		}
+		r.allocObligation(fr, big, instr)
 	}
 	n := r.concreteSize(lenT, "make len")
 	c := n
 	if capT != lenT {
-		c = r.concreteSize(capT, "make cap")
+		if capT.IsConst() {
+			c = r.concreteSize(capT, "make cap")
+		} else {
+			// a symbolic capacity only influences reallocation, not behaviour: the negative side
+			// panics as in Go, otherwise the slice is materialised with cap == len
+			if !r.decide(r.st.BvCmp(OBvSle, lenT, capT)) {
+				panic(rtPanic("makeslice: cap out of range"))
+			}
+		}
 	}
 	if n < 0 || c < n {
 		panic(rtPanic("makeslice: len out of range"))
